@@ -79,6 +79,15 @@ def explainArbitrary {α} (a : Answer α) : String :=
   | .accepted _ => "arbitrary bytes: accepted value breaks a documented rule"
   | _ => "ok"
 
+/-- a message stays what it was for as long as its holder keeps it: `alias` is
+the harness' observation that the bytes returned by an earlier `Encode` changed
+when another message was encoded (also concurrently), or that a decoded value
+changed when the input buffer was reused -/
+def specRetained (alias : Bool) : Bool := !alias
+
+def explainAlias : String :=
+  "round trip: a message did not stay what it was after it had been handed out (result shares memory with a later call)"
+
 def explainOob : String :=
   "no-crash: short [32]byte array: the decoder's zero-fill wrote outside the array (decoded value differs from the same message with explicit zeros)"
 
